@@ -43,6 +43,7 @@ pub fn normalise(msg: &str) -> String {
 thread_local! {
     static LAST: RefCell<Option<PanicInfo>> = const { RefCell::new(None) };
     static QUIET: RefCell<bool> = const { RefCell::new(false) };
+    static CONTEXT: RefCell<String> = const { RefCell::new(String::new()) };
 }
 
 static SEEN: Mutex<Option<HashMap<String, (u64, String)>>> = Mutex::new(None);
@@ -86,7 +87,9 @@ pub fn install() {
             } else {
                 "<non-string panic>".to_string()
             };
-            let key = format!("{}|{}", location, normalise(&message));
+            // the same library location/message can be reached from different in-repo callers: the harness names the
+            // decoder it is driving so that the symbolisation cache does not mix them up
+            let key = format!("{}|{}|{}", CONTEXT.with(|c| c.borrow().clone()), location, normalise(&message));
             let repo_frame = {
                 let mut g = SEEN.lock().unwrap_or_else(|e| e.into_inner());
                 let m = g.get_or_insert_with(HashMap::new);
@@ -94,7 +97,7 @@ pub fn install() {
                 e.0 += 1;
                 // symbolise the first occurrences and a sample afterwards; callers under the same
                 // (location, message) are the same in practice, the sample guards against that assumption
-                if true {
+                if e.0 <= 40 || e.0 % 64 == 0 {
                     let bt = std::backtrace::Backtrace::force_capture().to_string();
                     let f = first_repo_frame(&bt);
                     if e.1.is_empty() || e.1 == "?" {
@@ -137,4 +140,14 @@ pub fn take_last() -> Option<PanicInfo> {
 
 pub fn set_quiet(q: bool) {
     QUIET.with(|x| *x.borrow_mut() = q);
+}
+
+/// Name what is being driven on this thread (part of the symbolisation cache key).
+pub fn set_context(s: &str) {
+    CONTEXT.with(|c| {
+        let mut c = c.borrow_mut();
+        if *c != s {
+            *c = s.to_string();
+        }
+    });
 }
